@@ -681,7 +681,7 @@ class Constraints:
             )
 
         if count_detector == 1:
-            return (
+            return self._naz not in self._constrained and (
                 {self._chi, self._phi}.issubset(self._constrained)
                 or {self._mu, self._eta}.issubset(self._constrained)
                 or {self._mu, self._phi}.issubset(self._constrained)
